@@ -97,8 +97,22 @@ Outcomes == {"refused", "failed", "ok"}
 
 KeylessRoutes == {"top", "exec1", "sib_x_0_1", "grant", "sametx"}
 
-SubmitOps == [op : {"Submit"}, sub : Funded, tgt : Keyed, sig : KeyedSigs]
-               \cup [op : {"Submit"}, sub : Funded, tgt : Keyless, sig : KeylessSigs]
+(* Spelling of the address fields of the submission message - an attribute of the MESSAGE that does not change which
+   address it denotes: bech32 may be written all lower-case or ALL UPPER-CASE (both decode to the same bytes);
+     lower      both fields lower-case (what clients send)      upper      `account` in upper case
+     subupper   `submitter` in upper case                        bothupper  both
+   and malformed spellings, which denote nothing and must be refused with nothing stored:
+     mixed      `account` in mixed case                          padded     `account` with surrounding white space
+   As far as the state machine goes upper = lower: the rule below never looks at a well-formed spelling, and the
+   consequences of a stored proof (finality, the vesting guard) hold whatever spelling was used at submission. *)
+WellSpelled == {"lower", "upper", "subupper", "bothupper"}
+Malformed   == {"mixed", "padded"}
+Spellings   == WellSpelled \cup Malformed
+SpelledSigs == {"valid", "valid2", "otherkey"}
+
+SubmitOps == [op : {"Submit"}, sub : Funded, tgt : Keyed, sig : KeyedSigs, sp : {"lower"}]
+               \cup [op : {"Submit"}, sub : Funded, tgt : Keyless, sig : KeylessSigs, sp : {"lower"}]
+               \cup [op : {"Submit"}, sub : Funded, tgt : Keyed, sig : SpelledSigs, sp : Spellings \ {"lower"}]
 CreateOps == [op : {"Create"}, kind : VestKinds, to : Keyed, route : Routes]
                \cup [op : {"Create"}, kind : VestKinds, to : Keyless, route : KeylessRoutes]
 Ops == SubmitOps \cup CreateOps
@@ -121,7 +135,8 @@ SubmitRegular(st, o) ==
   ELSE {"ok"}
 
 SubmitOutcomes(st, o) ==
-  IF o.tgt \in Keyless THEN {"refused", "failed"}           \* P: no signature whatsoever is "by the key controlling that address"
+  IF o.sp \in Malformed THEN {"refused", "failed"}          \* denotes no address: nothing can be stored for it
+  ELSE IF o.tgt \in Keyless THEN {"refused", "failed"}           \* P: no signature whatsoever is "by the key controlling that address"
   ELSE IF o.sig \in LongForms THEN {"refused", "failed"} \cup (IF st.q[o.sub] >= 1 THEN {"ok"} ELSE {})   \* not the property's business
   ELSE IF o.sig \in Forged THEN {"refused", "failed"}            \* P: stored only with a signature by the key controlling the address over the fixed message
   ELSE IF o.sub = o.tgt THEN {"refused", "failed"} \cup SubmitRegular(st, o)   \* D: x/vauth refuses submitter = account; the property is silent
